@@ -146,7 +146,7 @@ def _build_domains(loaded) -> Dict[str, VariableDomain]:
             d = loaded["domains"][d_name]
             values = d["values"]
 
-            if len(values) == 1 and ".." in values[0]:
+            if len(values) == 1 and isinstance(values[0], str) and ".." in values[0]:
                 values = str_2_domain_values(d["values"][0])
             d_type = d["type"] if "type" in d else ""
             domains[d_name] = VariableDomain(d_name, d_type, values)
